@@ -165,17 +165,35 @@ Theorem client_untraced_unchanged (c : tctx) (out : thdrs) :
 Proof. exact (client_forward_untraced c out). Qed.
 Print Assumptions client_untraced_unchanged.
 
+(* Wrappers that are transparent (goahttp.NewDebugDoer, goagrpc.NewInvoker, user
+   interceptors: they pass the request context on) can be put anywhere in a client
+   stack, around or inside the traced client, without changing what goes on the
+   wire; a stack that contains the traced client forwards the current trace id and
+   the current span whatever else it contains and whatever the request carried. *)
+Theorem client_stack_transparent (l1 l2 : list client_layer) (c : tctx) (out : thdrs) :
+  client_stack (l1 ++ CTransparent :: l2) c out = client_stack (l1 ++ l2) c out.
+Proof. exact (thm_client_stack_transparent l1 l2 c out). Qed.
+Print Assumptions client_stack_transparent.
+
+Theorem client_stack_forwards (ls : list client_layer) (c : tctx) (out : thdrs) (t s : bytes) :
+  has_traced ls = true -> c_trace c = Some t -> c_span c = Some s ->
+  client_stack ls c out = Some ([t], [s]).
+Proof. exact (client_stack_traced ls c out t s). Qed.
+Print Assumptions client_stack_forwards.
+
 (* A chain of any depth server -> traced client -> server -> ... whose first
    server traces the request under trace id t: nobody panics, every server of the
    chain receives t and runs under t, every server after the first received its
    caller's span as ParentSpanID and records it as its parent, and every server
    runs under the span its own generator produced. Each server has its own
    transport (HTTP, gRPC unary, gRPC stream), options, sampler draw, discard
-   results, pre-existing outgoing headers and pre-existing context; the only
-   hypotheses are a fresh context at the first server and non-empty spans. *)
+   results, pre-existing outgoing headers, pre-existing context and its own client
+   stack (debug doer around or inside the traced doer, ...); the only hypotheses
+   are a fresh context at the first server, non-empty spans and that every client
+   stack contains the traced client. *)
 Theorem chain_shares_trace (h : hop) (hops : list hop) (i : thdrs) (t : bytes) :
   q_base (h_req h) = empty_ctx ->
-  Forall (fun h => q_newspan (h_req h) <> []) (h :: hops) ->
+  Forall (fun h => q_newspan (h_req h) <> [] /\ has_traced (h_client h) = true) (h :: hops) ->
   c_trace (hop_ctx h i) = Some t ->
   let cs := chain (h :: hops) i in
   length cs = S (length hops) /\
@@ -191,7 +209,7 @@ Print Assumptions chain_shares_trace.
 (* a chain entered with a trace id and a parent span from outside behaves the same *)
 Theorem chain_entered_with_trace (hops : list hop) (i : thdrs) (t p : bytes) :
   first_value (fst i) = t -> t <> [] -> first_value (snd i) = p -> p <> [] ->
-  Forall (fun h => q_newspan (h_req h) <> []) hops ->
+  Forall (fun h => q_newspan (h_req h) <> [] /\ has_traced (h_client h) = true) hops ->
   let cs := chain hops i in
   length cs = length hops /\
   Forall (fun ic => c_trace (snd ic) = Some t) cs /\
@@ -276,7 +294,7 @@ Proof. vm_compute. repeat split. Qed.
 Example chain_example :
   let q n := {| q_url := true; q_matches := []; q_trace := []; q_parent := []; q_base := empty_ctx;
                 q_computed := 0; q_draw := 0; q_newtrace := [84%N; n]; q_newspan := [83%N; n] |} in
-  let hp k n := {| h_kind := k; h_opts := trace_options []; h_req := q n; h_out := ([], []) |} in
+  let hp k n := {| h_kind := k; h_opts := trace_options []; h_req := q n; h_out := ([], []); h_client := [CTransparent; CTraced] |} in
   map snd (chain [hp KHttp 1%N; hp KUnary 2%N; hp KStream 3%N] ([], [])) =
   [ {| c_trace := Some [84%N; 1%N]; c_span := Some [83%N; 1%N]; c_parent := None |};
     {| c_trace := Some [84%N; 1%N]; c_span := Some [83%N; 2%N]; c_parent := Some [83%N; 1%N] |};
